@@ -50,6 +50,8 @@ def main():
                 one(inp)
         except Exception:
             pass
+    for inp in req.get("inputs") or []:
+        one(inp)
     if req.get("exhaustive") and spec.get("enumerate"):
         for inp in spec["enumerate"](req.get("tier", "quick")):
             one(inp)
